@@ -42,58 +42,28 @@ func (w *World) registryEntries() ([]regEntry, string) {
 	if v == nil {
 		return nil, "the field registry openflow13.oxxFieldHeaderMap not found"
 	}
-	init, pkg := w.globalInit(v)
-	cl, ok := init.(*ast.CompositeLit)
+	val, why := w.FoldGlobal(v)
+	if why != "" {
+		return nil, "the field registry's initial value is not a closed term the checker can fold: " + why
+	}
+	m, ok := val.(*cMap)
 	if !ok {
-		return nil, "the field registry is not initialised by a map literal"
+		return nil, "the field registry is not initialised to a map"
 	}
 	var out []regEntry
-	for _, el := range cl.Elts {
-		kv, ok := el.(*ast.KeyValueExpr)
-		if !ok {
-			continue
+	for _, k := range m.Keys {
+		e := regEntry{Name: k, Pos: m.Pos[k]}
+		ev := m.V[k]
+		if p, ok := ev.(*cPtr); ok {
+			ev = p.To
 		}
-		e := regEntry{Pos: kv.Pos()}
-		if tv, ok := pkg.TypesInfo.Types[kv.Key]; ok && tv.Value != nil && tv.Value.Kind() == constant.String {
-			e.Name = constant.StringVal(tv.Value)
-		}
-		cv := func(x ast.Expr) (int64, bool) {
-			if tv, ok := pkg.TypesInfo.Types[x]; ok && tv.Value != nil {
-				return constant.Int64Val(constant.ToInt(tv.Value))
-			}
-			return 0, false
-		}
-		switch val := kv.Value.(type) {
-		case *ast.CallExpr:
-			// newMatchFieldHeader(class, field, length) — checked to build {Class, Field, Length, HasMask:false}
-			if id, ok := val.Fun.(*ast.Ident); ok && id.Name == "newMatchFieldHeader" && len(val.Args) == 3 {
-				c, ok1 := cv(val.Args[0])
-				f, ok2 := cv(val.Args[1])
-				l, ok3 := cv(val.Args[2])
-				e.Class, e.Field, e.Width, e.OK = c, f, l, ok1 && ok2 && ok3
-			}
-		case *ast.UnaryExpr:
-			if lit, ok := val.X.(*ast.CompositeLit); ok {
-				e.OK = true
-				for _, fe := range lit.Elts {
-					if fkv, ok := fe.(*ast.KeyValueExpr); ok {
-						n, okv := cv(fkv.Value)
-						switch fkv.Key.(*ast.Ident).Name {
-						case "Class":
-							e.Class = n
-						case "Field":
-							e.Field = n
-						case "Length":
-							e.Width = n
-						}
-						if !okv {
-							if id, ok := fkv.Key.(*ast.Ident); ok && (id.Name == "Class" || id.Name == "Field" || id.Name == "Length") {
-								e.OK = false
-							}
-						}
-					}
-				}
-			}
+		if s, ok := ev.(*cStruct); ok {
+			c, ok1 := s.F["Class"].(cInt)
+			f, ok2 := s.F["Field"].(cInt)
+			l, ok3 := s.F["Length"].(cInt)
+			hm, ok4 := s.F["HasMask"].(cBool)
+			e.Class, e.Field, e.Width = c.V, f.V, l.V
+			e.OK = ok1 && ok2 && ok3 && ok4 && !hm.B
 		}
 		out = append(out, e)
 	}
